@@ -15,7 +15,13 @@ Open Scope Q_scope.
    every specified one of left, right, width, margin-left, margin-right is the used one - so that
    left + margin-left + border/padding + width + margin-right + right = containing block width - and auto
    margins are 0 unless left, width and right are all specified.  For every input where the five values are
-   not all specified, both directions, any shrink-to-fit oracle. *)
+   not all specified, both directions, any shrink-to-fit oracle.
+   In all the theorems about absolutely positioned boxes (cbx, cbw) / (cb0, cbs) is the origin and size of the
+   containing block handed to absolute.py by its caller, universally quantified.  That the caller hands over the
+   padding box of the USED size of the nearest positioned ancestor (its height after min-height / max-height, after a
+   formatting-context root has grown to contain its floats) is glue of block_container_layout: it is judged on full
+   renders by the render-absolute monitor, whose containing blocks have used heights that differ from their content
+   heights (finding F212, repaired). *)
 Theorem C11_abs_width_constraint ltr stf cbx cbw b content p :
   over_constrained b = false ->
   placed_of b (abs_width ltr stf cbx cbw b) content = Some p ->
